@@ -341,7 +341,12 @@ theorem link_of_closedD {env : Env} {file : AFile} {n : Nat} {G : List String} (
       cases hx : (goFilePreSt env file n).1.findFunc r with
       | none => rfl
       | some g => rw [hx] at this; simp at this
-    exact ⟨hnone _ (by simp [reservedGoNames]), hnone _ (by simp [reservedGoNames]), hnone _ (by simp [reservedGoNames])⟩
+    have hsub : ∀ r, r ∈ intConvNames → r ∈ reservedGoNames := by
+      intro r hr
+      simp only [intConvNames, List.mem_cons, List.mem_singleton, List.not_mem_nil, or_false] at hr
+      rcases hr with rfl | rfl | rfl | rfl | rfl | rfl | rfl | rfl <;> simp [reservedGoNames]
+    exact ⟨hnone _ (by simp [reservedGoNames]), hnone _ (by simp [reservedGoNames]), hnone _ (by simp [reservedGoNames]),
+      fun r hr => hnone r (hsub r hr)⟩
   · -- the constructor, the wrappers and the two structs of an admissible vtable
     have hent := dynTable_spec hd
     have hvt : (tr, forTy) ∈ (collectDynRequirements file).vtables := by
